@@ -22,7 +22,7 @@ ASSUMPTIONS = ['the molecule consensus is the C13 vote restricted to positions w
                'context letters: CG->z, C[ACT]G->x, C[ACT][ACT]->h, anything truncated by the contig end or containing a non-ACGT base -> "."']
 MIN_NONTRIVIAL = {'quick': 200, 'thorough': 25000}
 REQUIRED_MONITORS = ['obs:call_dict_entries', 'obs:reads_with_XM', 'ctx:z', 'ctx:x', 'ctx:h', 'ctx:upper', 'ctx:dot', 'edge:contig_end_calls',
-                     'strand:reverse', 'convention:F', 'convention:R']
+                     'strand:reverse', 'convention:F', 'convention:R', 'history:caller_reused_on_other_reference']
 SHARD_TIMEOUT = {'quick': 900, 'thorough': 5400}
 
 
@@ -52,11 +52,26 @@ def context_letter(ref, p, refbase, qbase):
 
 
 def run_case(case):
+    from singlecellmultiomics.molecule import TAPS
+    acc = Acc()
+    r = rng(case['seed'], 'C14', case['i'])
+    # history: one TAPS caller serves several references in its life time (several runs of an API user, several genomes that share
+    # contig names); each molecule is judged against the reference it was called on
+    rounds = r.choice([1, 1, 2, 3])
+    taps = TAPS()
+    for rnd in range(rounds):
+        if rnd:
+            acc.count('history:caller_reused_on_other_reference')
+        one_reference(case, acc, r, taps, rnd)
+        if acc.violations:
+            break
+    return acc
+
+
+def one_reference(case, acc, r, taps, rnd):
     import pysam
     from singlecellmultiomics.fragment import Fragment, NlaIIIFragment
     from singlecellmultiomics.molecule import TAPS, TAPSMolecule
-    acc = Acc()
-    r = rng(case['seed'], 'C14', case['i'])
     L = r.choice([60, 120, 250, 400])
     ref = list(''.join(r.choices('ACGT', k=L)))
     if r.random() < 0.3:
@@ -126,11 +141,11 @@ def run_case(case):
         pysam.faidx(fa)
         header = make_header([('chr1', L)])
         with pysam.FastaFile(fa) as reference:
-            m = TAPSMolecule(taps=TAPS(), taps_strand=conv, reference=reference)
+            m = TAPSMolecule(taps=taps, taps_strand=conv, reference=reference)
             for fr in frags:
                 reads = [make_seg(header, rec) if rec is not None else None for rec in fr['recs']]
                 m._add_fragment(Fragment(reads, umi_hamming_distance=0))
-            wit = {'reference': ref, 'reverse': reverse, 'convention': conv, 'expected_base': expected_base, 'methylated_positions': sorted(meth)[:40],
+            wit = {'reference': ref, 'round_with_the_same_caller': rnd, 'reverse': reverse, 'convention': conv, 'expected_base': expected_base, 'methylated_positions': sorted(meth)[:40],
                    'fragments': [[(x['flag'], x['pos'], x['seq']) if x else None for x in f['recs']] for f in frags]}
             try:
                 m.__finalise__()
@@ -198,7 +213,7 @@ def run_case(case):
                         acc.violate('total-tag-wrong:' + t, f'read {read.query_name}: {t}={gv} expected {v} (calls {dict(cnt)})', wit)
                         break
             if any(k.isupper() for k in cnt) and any(k.islower() for k in cnt):
-                acc.sigs.add(f"{case['i']}")
+                acc.sigs.add(f"{case['i']}/{rnd}")
             acc.sample = {'reference_length': L, 'reverse': reverse, 'convention': conv, 'expected_base': expected_base, 'fragments': n,
                           'calls': dict(cnt), 'example_calls': {p: exp[p] for p in sorted(exp)[:6]}}
     return acc
